@@ -14,7 +14,7 @@ use serde_json::json;
 pub const PROP: PropDef = PropDef {
     id: "C11",
     parts,
-    rule: "1-2 clients issuing 1-2 requests each with options {scheduled, on-demand}; machine script chosen by the environment per iteration {throttled, no-update, update + install + reboot wait with the reboot refused once or twice}; every operation of the flow blocks (timers, HTTP exchanges, plan creation, install, progress, reboot) and the explorer chooses at each step which pending operation completes / which task runs / the order of `select!` branches, bounded to 2 (quick) / 3 (thorough) non-default scheduling choices, while the step at which each request is injected is enumerated exhaustively; extra parts drop all handles / drop the stream at every step; after the horizon the run is drained with default scheduling and every request must have been answered; non-trivial = at least one request was answered while the machine was not simply idle-waiting, or a drop happened",
+    rule: "1-2 clients issuing 1-2 requests each with options {scheduled, on-demand}; machine script chosen by the environment per iteration {refused by the policy as throttled / too soon / denied, no-update, update + install + reboot wait with the reboot refused once or twice}; every operation of the flow blocks (timers, HTTP exchanges, plan creation, install, progress, reboot) and the explorer chooses at each step which pending operation completes / which task runs / the order of `select!` branches, bounded to 2 (quick) / 3 (thorough) non-default scheduling choices, while the step at which each request is injected is enumerated exhaustively; extra parts drop all handles / drop the stream at every step; after the horizon the run is drained with default scheduling and every request must have been answered; non-trivial = at least one request was answered while the machine was not simply idle-waiting, or a drop happened",
     assumptions: &["ControlHandle is used from the same thread as the state machine (futures-channel's cross-thread atomics are not instrumented)"],
 };
 
@@ -27,6 +27,8 @@ struct D {
     backoff_script: bool,
     /// the policy prescribes a minimum wait of 7 s with every timing
     min_wait: bool,
+    /// which refusal the policy uses in this run: 0 throttled, 1 too soon, 2 denied (every one must be answered Throttled)
+    refusal_kind: usize,
 }
 impl Director for D {
     fn compute_next(&mut self, w: &mut Inner) -> omaha_client::common::CheckTiming {
@@ -38,10 +40,15 @@ impl Director for D {
         }
     }
     fn check_allowed(&mut self, w: &mut Inner, opts: Src) -> CheckAns {
+        // every kind of refusal: each must be answered Throttled (seed C11-g: TooSoon went back to waiting without a reply)
         if w.choose("policy.check", 2) == 0 {
             CheckAns::Ok(Params::default_for(opts))
         } else {
-            CheckAns::Throttled
+            match self.refusal_kind {
+                0 => CheckAns::Throttled,
+                1 => CheckAns::TooSoon,
+                _ => CheckAns::Denied,
+            }
         }
     }
     fn http(&mut self, w: &mut Inner, req: &WireReq) -> HttpAns {
@@ -405,6 +412,10 @@ fn run_script(ctx: &RunCtx, tier: Tier, n_total: usize, backoff_script: bool) ->
 }
 
 fn run_script2(ctx: &RunCtx, tier: Tier, n_total: usize, backoff_script: bool, abandoning: bool) -> RunOut {
+    run_script3(ctx, tier, n_total, backoff_script, abandoning, false)
+}
+
+fn run_script3(ctx: &RunCtx, tier: Tier, n_total: usize, backoff_script: bool, abandoning: bool, vary_refusal: bool) -> RunOut {
     let drop_mode = DropMode::None;
     let n_clients = if n_total > 1 { 1 + choose("clients", n_total) } else { 1 };
     let mut s = Setup::new(Mode::Start);
@@ -416,6 +427,7 @@ fn run_script2(ctx: &RunCtx, tier: Tier, n_total: usize, backoff_script: bool, a
         failed_once: None,
         backoff_script,
         min_wait: false,
+        refusal_kind: if vary_refusal { 1 + choose("policy.refusal", 2) } else { 0 },
     };
     let mut e = Exec::new(s, Box::new(d), Store::default());
     if abandoning {
@@ -540,6 +552,7 @@ fn run_with_budget(ctx: &RunCtx, mode: DropMode) -> RunOut {
         failed_once: None,
         backoff_script: false,
         min_wait: false,
+        refusal_kind: 0,
     };
     let mut e = Exec::new(s, Box::new(d), Store::default());
     if n_clients > 0 {
@@ -621,6 +634,7 @@ fn run_no_timer(ctx: &RunCtx) -> RunOut {
         backoff_script: false,
         // with a minimum wait prescribed, the machine still has to listen to requests while that timer is pending
         min_wait: choose("policy.minimum_wait", 2) == 1,
+        refusal_kind: 0,
     };
     let mut e = Exec::new(s, Box::new(d), Store::default());
     let o1 = [Src::Scheduled, Src::OnDemand][choose("options", 2)];
@@ -700,6 +714,13 @@ fn parts(tier: Tier) -> Vec<PartDef> {
         json!({"machine_script": "the first update-check attempt of every check fails in transit; the back-off timer is a blocking point; the retry is answered (no update)", "requests": "2 (one or two clients), options exhaustive, injected at every step",
                "deviation_bound_on_the_rest": tier.pick(0, 1)}),
         move |ctx| run_script(ctx, tier, 2, true),
+    ));
+    v.push(PartDef::new(
+        "refusal-kinds",
+        Cfg::new("C11/refusal-kinds").dev(tier.pick(0, 1)).free(&["clients", "options", "inject", "policy.check", "policy.refusal"]),
+        json!({"policy_refusal": ["too soon", "denied"], "requests": "2 (one or two clients), options exhaustive, injected at every step", "server": "no update",
+               "oracle": "a request refused by the policy with any refusal is answered Throttled (never the gone error, never left unanswered)", "deviation_bound_on_the_rest": tier.pick(0, 1)}),
+        move |ctx| run_script3(ctx, tier, 2, false, false, true),
     ));
     v.push(PartDef::new(
         "abandoned-request",
